@@ -338,6 +338,12 @@ class Interp:
                 self.construct(t, this, args)
                 return this
             return self.call(t, args, this)
+        if callee is None and k == 'CallExpr' and n.get('c') and not n.get('_redispatched'):
+            # a member call inside a generic lambda / template pattern: `x.f(args)` is a CallExpr whose callee is a dependent member expression
+            ce = fn.strip(S[n['c'][0]])
+            if ce is not None and ce['k'] == 'CXXDependentScopeMemberExpr' and ce.get('member') and ce.get('c'):
+                n2 = dict(n, k='CXXMemberCallExpr', cs='<dependent>::' + ce['member'], callee='<dependent>::' + ce['member'], obj=ce['c'][0], _redispatched=True)
+                return self.call_node(fn, n2, env)
         raise OutOfFragment('call to %s at %s' % (callee, fn.loc(n)))
 
     def std_model(self, fn, n, env):
@@ -437,6 +443,14 @@ class Interp:
                 return ('it', o[1], o[2] + 1)
             if isinstance(o, (bytes, bytearray, dict, set)) and not isinstance(o, Obj) and cs in ('std::size', 'std::ssize', 'std::empty'):
                 return len(o) == 0 if cs == 'std::empty' else len(o)
+            if isinstance(o, dict) and not isinstance(o, Obj) and cs in ('std::begin', 'std::end', 'std::cbegin', 'std::cend'):
+                # iteration over a map: a snapshot list of (first, second) entries shared by begin() and end()
+                snaps = self.__dict__.setdefault('_mapsnaps', {})
+                snap = snaps.get(id(o))
+                if snap is None or len(snap) != len(o) or any(e['first'] not in o for e in snap):
+                    snap = [Obj(first=k_, second=v_) for k_, v_ in o.items()]
+                    snaps[id(o)] = snap
+                return ('it', snap, 0 if 'begin' in cs else len(snap))
             if isinstance(o, list):
                 return {'std::begin': ('it', o, 0), 'std::cbegin': ('it', o, 0), 'std::end': ('it', o, len(o)), 'std::cend': ('it', o, len(o)),
                         'std::size': len(o), 'std::ssize': len(o), 'std::empty': len(o) == 0}[cs]
@@ -575,6 +589,8 @@ class Interp:
                 x = tuple(x)
             if isinstance(o, (set, frozenset)):
                 return (x in o) if last == 'contains' else int(x in o)
+        if k in ('CXXConstructExpr', 'CXXTemporaryObjectExpr') and (n.get('cls') or '').startswith(('std::unordered_map', 'std::map')) and not n.get('args'):
+            return {}
         if k in ('CXXMemberCallExpr', 'CXXOperatorCallExpr') and cs.startswith(('std::unordered_map::', 'std::map::')):
             # maps as plain python dicts (keys: bytes / ints / tuples)
             if k == 'CXXMemberCallExpr' and 'obj' in n:
@@ -588,6 +604,8 @@ class Interp:
                     return (args[0] in o) if last == 'contains' else int(args[0] in o)
                 if last in ('size',):
                     return len(o)
+                if last in ('reserve', 'rehash'):
+                    return None
                 if last == 'empty':
                     return not o
                 if last == 'at' and len(args) == 1:
@@ -841,6 +859,21 @@ class Interp:
                     break
                 except _Continue:
                     pass
+                it += 1
+                if it > 10000:
+                    raise OutOfFragment('loop bound')
+            return
+        if k == 'DoStmt':
+            it = 0
+            while True:
+                try:
+                    self.exec(fn, S[n['body']], env)
+                except _Break:
+                    break
+                except _Continue:
+                    pass
+                if not self.eval(fn, S[n['cond']], env):
+                    break
                 it += 1
                 if it > 10000:
                     raise OutOfFragment('loop bound')
